@@ -705,14 +705,34 @@ def scale_exc(src, f):
     return src
 
 
+def equal_polylines(rng, n):
+    """n closed Polyline loops with the SAME number of vertices and different currents (also of opposite
+    sign): the equal-vertex-count fast path of current_vertices_field handles them in one block"""
+    first = gen_source(rng, "Polyline")
+    nv = len(first["vertices"])
+    srcs = [first]
+    while len(srcs) < n:
+        s = gen_source(rng, "Polyline")
+        if len(s["vertices"]) == nv:
+            srcs.append(s)
+    cur = rng.uniform(1.0, 5.0)
+    for i, s in enumerate(srcs):
+        s["current"] = cur * (1.0 if i == 0 else rng.choice([-1, 1]) * rng.uniform(0.15, 0.6) ** i)
+    rng.shuffle(srcs)
+    return srcs
+
+
 def gen_case(rng, law, kinds, coll=False):
+    equal = coll == "equal-polylines"
+    if equal:
+        coll = rng.random() < 0.5          # as a Collection or as a plain list of sources
     for _ in range(40):
-        srcs = [gen_source(rng, k) for k in kinds]
+        srcs = equal_polylines(rng, len(kinds)) if equal else [gen_source(rng, k) for k in kinds]
         case = {"law": law, "sources": srcs, "coll": None, "focus": rng.randrange(len(srcs))}
         if coll:
             case["coll"] = {"move": rvec(rng, 2.0), "rotvec": rrotvec(rng)}
         case["entry"] = rng.choice(["func", "func", "method", "sensor"])
-        if len(srcs) > 1:
+        if len(srcs) > 1 and not equal:
             x = rng.random()
             if x < 0.3:        # twin: same geometry and pose, different excitation
                 i = rng.randrange(len(srcs))
@@ -915,6 +935,9 @@ def sweep(ctx, n_per_kind, n_coll, seconds, n_special=0, min_evals=2e4):
     for kind in KINDS:
         for law in ("flux", "circ"):
             plan += [(law, [kind], "special")] * n_special
+    if "Polyline" in KINDS and n_special:
+        for i in range(3 * n_special):
+            plan.append(("circ", ["Polyline"] * (2 + i % 2), "equal-polylines"))
     if "TriangularMesh" in KINDS and n_special:
         try:
             off = ray_start_constants()
